@@ -437,12 +437,14 @@ def families(run: Run):
     """(name, iterator of (family, tree))"""
     if not run.thorough:
         yield "depth1 widths{1,2,3} incl. mixed widths", G.depth1((1, 2, 3), mixed=True)
-        # beyond the complete bound: a seed-chosen 1/25 stratum of the depth-2 family
-        pick = run.seed % 25
-        yield f"depth2 widths{{1,2}} stratum {pick}/25 (seed-chosen)", (
-            ft for n, ft in enumerate(G.depth2((1, 2))) if n % 25 == pick)
+        yield "depth1 with typed constant operands, widths{1,2,3}", G.depth1_const((1, 2, 3), mixed=True)
+        # beyond the complete bound: a seed-chosen 1/50 stratum of the depth-2 family
+        pick = run.seed % 50
+        yield f"depth2 widths{{1,2}} stratum {pick}/50 (seed-chosen)", (
+            ft for n, ft in enumerate(G.depth2((1, 2))) if n % 50 == pick)
     else:
         yield "depth1 widths{1..4} incl. mixed widths", G.depth1((1, 2, 3, 4), mixed=True)
+        yield "depth1 with typed constant operands, widths{1..4}", G.depth1_const((1, 2, 3, 4), mixed=True)
         yield "depth2 widths{1,2}", G.depth2((1, 2))
 
 
